@@ -45,7 +45,8 @@ def run_current():
         with NoTracing():
             import traceback
             tb = traceback.extract_tb(e.__traceback__)
-            where = "; ".join(f"{f.filename.rsplit('/', 1)[-1]}:{f.lineno}" for f in tb[-4:])
+            tb = [f for f in tb if "/site-packages/z3/" not in f.filename and "/crosshair/" not in f.filename] or tb
+            where = "; ".join(f"{f.filename.rsplit('/', 1)[-1]}:{f.lineno}" for f in tb[-5:])
             detail = f"raised {type(e).__name__}: {str(e)[:200]} @ {where}"
     if ok:  # forks when symbolic: one solver query "can the assertion fail on this path?"
         with NoTracing():
